@@ -11,7 +11,7 @@ REACH_TARGETS = [('runtime.ManagedFilter._process_model', 'formak.runtime:Manage
 LEVEL = "exploration"
 RULE = ("moves (current time a in [-1e6,1e6], target a+delta, delta in {0, +-1e-10, +-0.999e-9, +-1.001e-9, "
         "+-n*max_dt, +-(n+f)*max_dt, +-(n*max_dt + r) with r in [3e-9,1e-3], +-max_dt*(1+-2^-52), random}, "
-        "n<=2000; plus coasts of 2e4..4e5 steps and of 1.05e6..2.6e6 steps, run-length-encoded logs) x max_dt in "
+        "n<=2000; a quarter of the Python moves after the filter's config was replaced; plus coasts of 2e4..4e5 steps and of 1.05e6..2.6e6 steps, run-length-encoded logs) x max_dt in "
         "{1e-3,.01,.05,.1,.3,.5,1} through the real Python runtime (recording stand-in filter) and the real "
         "ManagedFilter.h (recording Impl types, all four Tag combinations, ASan/UBSan); plus tick histories "
         "whose readings move the held time forwards and backwards; every recorded dt list is checked offline: "
@@ -129,10 +129,20 @@ def _classify(R, a, b, md, kind, dts, runtime):
 def _py(R, rng, ctx):
     from formak.runtime import ManagedFilter, StampedReading
 
-    for _ in range(MOVES[ctx["tier"]]["py"]):
+    for n_ in range(MOVES[ctx["tier"]]["py"]):
         mi, md, a, b, kind = gen_move(rng)
         rec = rtmodel.RecFilter(md, control_size=rng.choice([0, 1]))
-        mf = ManagedFilter(rec, a, (), None)
+        if n_ % 4 == 1:
+            # the filter is re-configured after the managed filter was built (its config object replaced, as
+            # SklearnEKFAdapter.set_params does): the step configured at the time of the move applies
+            from types import SimpleNamespace
+
+            rec.config = SimpleNamespace(max_dt_sec=md * rng.choice([2.5, 4.0, 0.5, 10.0]))
+            mf = ManagedFilter(rec, a, (), None)
+            rec.config = SimpleNamespace(max_dt_sec=md)
+            R.stats.inc("py_moves_after_reconfiguration")
+        else:
+            mf = ManagedFilter(rec, a, (), None)
         ctl = 5 if rec.control_size else None
         try:
             res = mf.tick(b, control=ctl)
